@@ -6,10 +6,10 @@ use crate::model::{Kind, Lid, MNode, Model, Nm};
 use crate::rng::Rng;
 use serde::{Deserialize, Serialize};
 
-pub const LOCALS: [&str; 6] = ["a", "b", "c", "d", "e", "f"];
+pub const LOCALS: [&str; 7] = ["a", "b", "c", "d", "e", "f", "A"];
 pub const URIS: [&str; 4] = ["urn:x", "urn:y", "urn:z", "urn:w?a=1&b=\"2\""];
 pub const PREFIXES: [&str; 3] = ["p", "q", "r"];
-pub const TEXTS: [&str; 12] = ["t", "x y", " ", "hello", "<&>", "é", "a]]>b", "  \n ", "1", "\"q'", "zz", "\u{1F600}"];
+pub const TEXTS: [&str; 13] = ["t", "x y", " ", "hello", "<&>", "é", "a]]>b", "  \n ", "1", "\"q'", "zz", "\u{1F600}", "a long run of character data, long enough to cross the small-string and buffer sizes that short samples never reach; 0123456789 0123456789 0123456789 0123456789 0123456789 0123456789 <&> \u{1F600} end"];
 pub const ATTR_VALUES: [&str; 8] = ["v", "", "x y", "<&\">", "é", "w'w", "1", "long value here"];
 pub const COMMENTS: [&str; 5] = ["c", " note ", "", "a-b", "<x>"];
 pub const PI_TARGETS: [&str; 3] = ["pi", "target", "x-y"];
